@@ -12,6 +12,9 @@ Notation post_config := (post_config base toml_parse).
 Notation capply := (capply base toml_parse).
 Notation creplay := (creplay base toml_parse).
 Notation cfg_step := (cfg_step base toml_parse).
+Notation cfg_step_from := (cfg_step_from base toml_parse).
+Notation takes_effect := (takes_effect base toml_parse).
+Notation ceffects := (ceffects base toml_parse).
 
 Definition accepted (st : cstate) (hdr body : string) : Prop :=
   exists d r, post_config st hdr body = CPropose d r.
@@ -50,17 +53,17 @@ Theorem accepted_step st hdr body :
     cs_rev (cfg_step st hdr body) = (cs_rev st + 1)%N /\
     cs_base (cfg_step st hdr body) = b /\ cs_banned (cfg_step st hdr body) = bl.
 Proof.
-  intros (d & r & H). unfold ConfigPost.cfg_step. rewrite H.
+  intros (d & r & H). unfold ConfigPost.cfg_step, ConfigPost.cfg_step_from. rewrite H.
   apply propose_shape in H. destruct H as (-> & -> & _ & Hp).
   unfold ConfigPost.capply. destruct (toml_parse body) as [[b bl]|]; [|congruence].
-  exists b, bl. auto.
+  rewrite N.eqb_refl. exists b, bl. auto.
 Qed.
 
 (* rejected (any reason) => nothing changes *)
 Theorem rejected_unchanged st hdr body :
   ~ accepted st hdr body -> cfg_step st hdr body = st.
 Proof.
-  intros H. unfold ConfigPost.cfg_step. destruct (post_config st hdr body) eqn:E; try reflexivity.
+  intros H. unfold ConfigPost.cfg_step, ConfigPost.cfg_step_from. destruct (post_config st hdr body) eqn:E; try reflexivity.
   exfalso. apply H. unfold accepted. eauto.
 Qed.
 
@@ -69,9 +72,16 @@ Theorem fsm_skips_invalid st d r : toml_parse d = None -> capply st (CEConfig d 
 Proof. intros H. unfold ConfigPost.capply. now rewrite H. Qed.
 
 Theorem fsm_installs_valid st d r b bl :
-  toml_parse d = Some (b, bl) ->
+  toml_parse d = Some (b, bl) -> r = (cs_rev st + 1)%N ->
   capply st (CEConfig d r) = mkC r b bl (cs_leader st).
-Proof. intros H. unfold ConfigPost.capply. now rewrite H. Qed.
+Proof. intros H ->. unfold ConfigPost.capply. now rewrite H, N.eqb_refl. Qed.
+
+(* a Config entry that does not follow the revision in force is skipped, whatever it carries *)
+Theorem fsm_skips_out_of_sequence st d r : r <> (cs_rev st + 1)%N -> capply st (CEConfig d r) = st.
+Proof.
+  intros H. unfold ConfigPost.capply. destruct (toml_parse d) as [[b bl]|]; [|reflexivity].
+  destruct (N.eqb_spec r (cs_rev st + 1)%N); [congruence|reflexivity].
+Qed.
 
 (* GLINE writes the replicated configuration: Banned[addr] = reason, nothing else *)
 Lemma scompare_refl s : String.compare s s = Eq.
@@ -113,7 +123,8 @@ Definition same_config (s1 s2 : cstate) : Prop :=
 Lemma capply_same s1 s2 e : same_config s1 s2 -> same_config (capply s1 e) (capply s2 e).
 Proof.
   intros (Hr & Hb & Hl). destruct e as [d r|a r|]; simpl.
-  - destruct (toml_parse d) as [[b bl]|]; unfold same_config; simpl; auto.
+  - rewrite Hr. destruct (toml_parse d) as [[b bl]|]; [|unfold same_config; auto].
+    destruct (N.eqb r (cs_rev s2 + 1)); unfold same_config; simpl; auto.
   - unfold same_config; simpl. now rewrite Hr, Hb, Hl.
   - unfold same_config; auto.
 Qed.
@@ -135,12 +146,132 @@ Theorem revision_counts_accepted ps : forall st,
 Proof.
   induction ps as [|[h b] r IH]; intros st Hl; simpl.
   - exists 0%nat. split; [lia|]. now rewrite N.add_0_r.
-  - unfold ConfigPost.cfg_step at 1. destruct (post_config st h b) eqn:E;
+  - unfold ConfigPost.cfg_step at 1, ConfigPost.cfg_step_from at 1. destruct (post_config st h b) eqn:E;
       try (destruct (IH st Hl) as (k & Hk & Hr); exists k; split; [lia|exact Hr]).
     apply propose_shape in E. destruct E as (-> & -> & _ & Hp). unfold ConfigPost.capply.
-    destruct (toml_parse b) as [[bb bl]|]; [|congruence].
+    destruct (toml_parse b) as [[bb bl]|]; [|congruence]. rewrite N.eqb_refl.
     destruct (IH (mkC (cs_rev st + 1)%N bb bl (cs_leader st)) Hl) as (k & Hk & Hr).
     exists (S k). split; [lia|]. rewrite Hr. simpl cs_rev. lia.
+Qed.
+
+(* ---- ANY log: no assumption about what the proposing handlers saw (commit b3bad2c, D20) ------- *)
+
+(* one entry: the revision stays or goes up by exactly one *)
+Theorem entry_revision_step st e :
+  cs_rev (capply st e) = cs_rev st \/ cs_rev (capply st e) = (cs_rev st + 1)%N.
+Proof.
+  destruct e as [d r|a r|]; simpl; auto.
+  destruct (toml_parse d) as [[b bl]|]; auto.
+  destruct (N.eqb_spec r (cs_rev st + 1)%N); simpl; auto.
+Qed.
+
+(* the configuration in force changes only together with the revision: a Config entry that
+   leaves the revision alone leaves everything alone; no entry changes the non-ban part
+   without raising the revision *)
+Theorem config_changes_only_with_revision st e :
+  cs_rev (capply st e) = cs_rev st ->
+  cs_base (capply st e) = cs_base st /\
+  (forall d r, e = CEConfig d r -> capply st e = st).
+Proof.
+  destruct e as [d r|a r|]; simpl; intros H.
+  - destruct (toml_parse d) as [[b bl]|] eqn:Hp.
+    + destruct (N.eqb_spec r (cs_rev st + 1)%N) as [->|Hne]; simpl in *; [lia|].
+      split; [reflexivity|]. intros d' r' E. reflexivity.
+    + split; [reflexivity|]. intros d' r' E. reflexivity.
+  - split; [reflexivity|]. intros d r' E. discriminate.
+  - split; [reflexivity|]. intros d r' E. discriminate.
+Qed.
+
+Theorem takes_effect_spec st e :
+  takes_effect st e = true <->
+  exists d b bl, e = CEConfig d (cs_rev st + 1)%N /\ toml_parse d = Some (b, bl) /\
+                 capply st e = mkC (cs_rev st + 1)%N b bl (cs_leader st).
+Proof.
+  destruct e as [d r|a r|]; simpl.
+  - destruct (toml_parse d) as [[b bl]|] eqn:Hp.
+    + destruct (N.eqb_spec r (cs_rev st + 1)%N) as [->|Hne].
+      * split; [intros _; exists d, b, bl; rewrite Hp; auto|auto].
+      * split; [discriminate|]. intros (d' & b' & bl' & E & _). inversion E; congruence.
+    + split; [discriminate|]. intros (d' & b' & bl' & E & Hp' & _). inversion E; subst. congruence.
+  - split; [discriminate|]. intros (d & b & bl & E & _). discriminate.
+  - split; [discriminate|]. intros (d & b & bl & E & _). discriminate.
+Qed.
+
+Lemma no_effect_unchanged_rev st e : takes_effect st e = false -> cs_rev (capply st e) = cs_rev st.
+Proof.
+  destruct e as [d r|a r|]; simpl; auto.
+  destruct (toml_parse d) as [[b bl]|]; auto. destruct (N.eqb r (cs_rev st + 1)); [discriminate|auto].
+Qed.
+Lemma effect_rev st e : takes_effect st e = true -> cs_rev (capply st e) = (cs_rev st + 1)%N.
+Proof. intros H. apply takes_effect_spec in H. destruct H as (d & b & bl & _ & _ & ->). reflexivity. Qed.
+
+Fixpoint seqN (start : N) (len : nat) : list N :=
+  match len with O => [] | S k => start :: seqN (start + 1)%N k end.
+
+(* whole logs — any mix of consecutive, stale, future and duplicate revisions, unparsable
+   bodies, GLINEs and other entries: the updates that take effect carry exactly the revisions
+   rev0+1, rev0+2, ..., each once, and the final revision counts them *)
+Theorem log_effects_consecutive l : forall st,
+  ceffects l st = seqN (cs_rev st + 1)%N (List.length (ceffects l st)) /\
+  cs_rev (creplay l st) = (cs_rev st + N.of_nat (List.length (ceffects l st)))%N.
+Proof.
+  induction l as [|e r IH]; intros st; simpl.
+  - split; [reflexivity|]. now rewrite N.add_0_r.
+  - destruct (IH (capply st e)) as [H1 H2].
+    destruct (takes_effect st e) eqn:He; cbn [app List.length seqN].
+    + rewrite (effect_rev _ _ He) in *. split.
+      * f_equal. exact H1.
+      * rewrite H2. lia.
+    + rewrite (no_effect_unchanged_rev _ _ He) in *. split; [exact H1|exact H2].
+Qed.
+
+Lemma seqN_lt start len x : In x (seqN start len) -> (start <= x)%N.
+Proof. revert start. induction len as [|k IH]; intros start; simpl; [tauto|]. intros [<-|H]; [lia|]. apply IH in H. lia. Qed.
+Lemma seqN_nodup start len : NoDup (seqN start len).
+Proof.
+  revert start. induction len as [|k IH]; intros start; simpl; constructor; [|apply IH].
+  intros H. apply seqN_lt in H. lia.
+Qed.
+
+(* two (or more) copies of the same update — the same revision — take effect at most once,
+   wherever they sit in the log *)
+Corollary same_revision_once l st : NoDup (ceffects l st).
+Proof. destruct (log_effects_consecutive l st) as [H _]. rewrite H. apply seqN_nodup. Qed.
+
+(* the second of two adjacent copies never has an effect *)
+Theorem duplicate_has_no_effect st d d' r :
+  takes_effect st (CEConfig d r) = true -> capply (capply st (CEConfig d r)) (CEConfig d' r) = capply st (CEConfig d r).
+Proof.
+  intros H. apply fsm_skips_out_of_sequence. rewrite (effect_rev _ _ H).
+  apply takes_effect_spec in H. destruct H as (d0 & b & bl & E & _). inversion E; subst. lia.
+Qed.
+
+(* at every position of the log the revision stays or goes up by one *)
+Theorem log_revision_steps l e st :
+  cs_rev (creplay (l ++ [e]) st) = cs_rev (creplay l st) \/
+  cs_rev (creplay (l ++ [e]) st) = (cs_rev (creplay l st) + 1)%N.
+Proof.
+  assert (H : forall l st, creplay (l ++ [e]) st = capply (creplay l st) e).
+  { clear. induction l as [|x r IH]; intros st; simpl; [reflexivity|apply IH]. }
+  rewrite H. apply entry_revision_step.
+Qed.
+
+(* a post answered from ANY state: it has an effect on the applying node only if the header
+   names the revision in force THERE and the body parses; otherwise nothing changes *)
+Theorem stale_post_harmless view st hdr body :
+  cfg_step_from view st hdr body = st \/
+  (parse_uint0 hdr = Some (cs_rev st) /\ exists b bl, toml_parse body = Some (b, bl) /\
+   cfg_step_from view st hdr body = mkC (cs_rev st + 1)%N b bl (cs_leader st)).
+Proof.
+  unfold ConfigPost.cfg_step_from. destruct (post_config view hdr body) as [| | | |d r] eqn:E; auto.
+  unfold ConfigPost.post_config in E.
+  destruct (parse_uint0 hdr) as [rev|]; [|discriminate].
+  destruct (toml_parse body) as [[b bl]|] eqn:Hp; [|discriminate].
+  destruct (cs_leader view); simpl in E; [|discriminate].
+  destruct (N.eqb rev (cs_rev view)); [|discriminate]. inversion E; subst d r.
+  unfold ConfigPost.capply. rewrite Hp.
+  destruct (N.eqb_spec (rev + 1)%N (cs_rev st + 1)%N) as [Heq|]; [|now left].
+  right. assert (rev = cs_rev st) by lia. subst rev. split; [reflexivity|]. exists b, bl. auto.
 Qed.
 End Config.
 
@@ -159,3 +290,11 @@ Example ex_history :
 Proof. vm_compute. repeat split; reflexivity. Qed.
 Example ex_accepted : accepted string ex_toml ex_c0 "0" "good".
 Proof. unfold accepted. eexists _, _. reflexivity. Qed.
+
+(* a log nobody's handler vetted: valid 1, stale 1 again (duplicate), future 5, unparsable 2, valid 2, stale 1 *)
+Example ex_any_log :
+  let l := [CEConfig "good" 1%N; CEConfig "good2" 1%N; CEConfig "good2" 5%N; CEConfig "bad" 2%N; CEGline "10.0.0.1" "x";
+            CEConfig "good2" 2%N; CEConfig "good" 1%N] in
+  ceffects string ex_toml l ex_c0 = [1%N; 2%N] /\
+  (cs_rev (creplay string ex_toml l ex_c0), cs_base (creplay string ex_toml l ex_c0)) = (2%N, "cfgB").
+Proof. vm_compute. split; reflexivity. Qed.
